@@ -576,4 +576,4 @@ pub fn replay(prop: &str, case: &Value) -> Report {
     r
 }
 
-pub const RULE_C01: &str = "cases = boundary-length x {ascii,multi-byte} x footer{none,empty,text} x assertion{none,empty,text} on every key of the catalogue, content-class x footer/assertion catalogue, 64 KiB (thorough: 1 MiB) messages, seeded random (key, nonce, message, footer, assertion), plus generic and batteries-included builder->parser round trips over random claim sets, plus ONE core builder object sealed from 2-4 times (every token must open to the message); each case seals with the real library and opens the result with the same key/footer/assertion; oracle = identity. distinct_nontrivial counts distinct (protocol, layer, message-length class, content class, footer class, assertion class) tuples (upper layers: protocol, layer, #claims, footer class, assertion class, parser kind) that produced a token AND opened to exactly the input";
+pub const RULE_C01: &str = "cases = boundary-length x {ascii,multi-byte} x footer{none,empty,text} x assertion{none,empty,text} on every key of the catalogue, content-class x footer/assertion catalogue, 64 KiB (thorough: 1 MiB) messages, seeded random (key, nonce, message, footer, assertion), plus generic and batteries-included builder->parser round trips over random claim sets, plus ONE core builder object sealed from 2-4 times (every token must open to the message); each case seals with the real library and opens the result with the same key/footer/assertion; oracle = identity. distinct_nontrivial counts distinct (protocol, layer, message-length class, content class, footer class, assertion class) tuples (upper layers: protocol, layer, #claims, footer class, assertion class, parser kind) that produced a token AND opened to exactly the input; plus ONE core builder whose payload/footer/assertion change between seals (to other values, to empty and back), and ONE GenericBuilder with claims set/removed/extended and footer/assertion changed between several builds (each token must parse to exactly the claims in force at its build)";
